@@ -2317,6 +2317,37 @@ def rule_rawio(text):
     return text, apps
 
 
+def rule_sweeploop(text):
+    """run_sweeper_loop (ttl_sweep.rs)"""
+    apps = []
+    ws = r"\s*"
+    table = [
+        (_lit("thread::sleep(config.sleep_interval);"), "thread_sleep(&config.sleep_interval);", "R-backoff", "shim: thread::sleep"),
+        (_lit("Instant::now()"), "instant_now()", "R-handle", "shim: a point in time"),
+        (_lit("let expiry_rate = if sampled > 0 { expired as f32 / sampled as f32 } else { 0.0 };"), "let expiry_rate = rate_of(expired, sampled);", "R-float",
+         "shim: the expiry rate (f32 division; 0.0 for an empty sample) as an opaque value"),
+        (_lit("expiry_rate < config.expiry_threshold"), "expiry_rate.below(&config.expiry_threshold)", "R-float", "shim: f32 comparison"),
+        (_lit("start.elapsed() > config.max_time_per_run"), "start.elapsed_exceeds(&config.max_time_per_run)", "R-handle", "shim: elapsed time against a limit"),
+        (_lit("std::time::SystemTime::now() .duration_since(std::time::UNIX_EPOCH) .unwrap() .as_nanos() as u64"), "wall_clock_nanos()", "R-ext", "shim: the wall clock"),
+        (r"\b(total_sampled|total_expired)" + ws + r"\+=" + ws + r"(\w+)" + ws + r";", r"\1 = count_add(\1, \2);", "R-count",
+         "a u64 progress counter: treated as non-overflowing (2^64 sampled keys are unreachable)"),
+        (_lit("sample_and_expire_batch(&store, &config)"), "sample_and_expire_batch(&store, &config)", "R-ws", "unchanged"),
+    ]
+    for pat, rep, rname, why in table:
+        n = 0
+        while n < 8:
+            n += 1
+            mm = re.search(pat, text)
+            if not mm:
+                break
+            new = mm.expand(rep)
+            if new == text[mm.start():mm.end()]:
+                break
+            apps.append(_app(rname, text, mm.start(), mm.end(), new, why))
+            text = text[:mm.start()] + new + text[mm.end():]
+    return text, apps
+
+
 def rule_wbshutdown(text):
     """WriteBuffer::{initiate_shutdown, finish_shutdown} (write_buffer.rs)"""
     apps = []
